@@ -641,6 +641,64 @@ def eval_aff(st, a, depth=3):
     return (lo, hi)
 
 
+def grange_of(vid, depth=0):
+    """range of a vid that holds in every state: declared ranges of symbols, propagated through affine forms and
+    div/rem by constants"""
+    c = CONSTVAL.get(vid)
+    if c is not None:
+        return (c, c)
+    g = GRANGE.get(vid)
+    if g is not None:
+        return g
+    if depth > 8:
+        return None
+    a = AFF.get(vid)
+    r = None
+    if a is not None and not a.mod and vid not in a.co:
+        lo = hi = a.c0
+        for s_, c_ in a.co.items():
+            gs = grange_of(s_, depth + 1)
+            if gs is None:
+                lo = None
+                break
+            lo += c_ * (gs[0] if c_ > 0 else gs[1])
+            hi += c_ * (gs[1] if c_ > 0 else gs[0])
+        if lo is not None:
+            r = (lo, hi)
+    t = TERM.get(vid)
+    if t is not None and t[0] in ('Div', 'Rem') and t[2] in CONSTVAL and CONSTVAL[t[2]] > 0:
+        gx = grange_of(t[1], depth + 1)
+        if gx is not None:
+            cc = CONSTVAL[t[2]]
+            r2 = iv_div(gx, (cc, cc)) if t[0] == 'Div' else iv_rem(gx, (cc, cc))
+            r = r2 if r is None else (max(r[0], r2[0]), min(r[1], r2[1]))
+    if r is not None:
+        GRANGE[vid] = r
+    return r
+
+
+def _split_high_low(ax, c):
+    """ax = high + low with every coefficient of high divisible by c and low provably in [0, c) in every state:
+    then ax / c = high / c and ax % c = low exactly"""
+    if ax is None or ax.mod:
+        return None
+    high = {s_: k for s_, k in ax.co.items() if k % c == 0}
+    low = {s_: k for s_, k in ax.co.items() if k % c != 0}
+    if not high or not low and ax.c0 % c == 0:
+        return None
+    k0, l0 = divmod(ax.c0, c)
+    lo = hi = l0
+    for s_, k in low.items():
+        g = grange_of(s_)
+        if g is None:
+            return None
+        lo += k * (g[0] if k > 0 else g[1])
+        hi += k * (g[1] if k > 0 else g[0])
+    if lo < 0 or hi >= c:
+        return None
+    return Aff({s_: k // c for s_, k in high.items()}, k0), Aff(dict(low), l0)
+
+
 def _reg_triple(x, c, q, r):
     t = (x, c, q, r)
     DIVMOD[(x, c)] = (q, r)
@@ -692,11 +750,17 @@ def divmod_vids(st, x, c):
                     USERS.setdefault(o, []).append(q)
                 break
         if q is None:
+            hl = _split_high_low(aff_of(x), c) if x in AFF else None
             q = new_vid()
             r = new_vid()
             TERM[q] = ('Div', x, cv)
             TERM[r] = ('Rem', x, cv)
             USERS.setdefault(x, []).extend([q, r])
+            if hl is not None:
+                AFF[q], AFF[r] = hl
+                for a_ in hl:
+                    for o in a_.co:
+                        USERS.setdefault(o, []).append(q if a_ is hl[0] else r)
         CONS.setdefault(('Div', x, cv), q)
         CONS.setdefault(('Rem', x, cv), r)
         _reg_triple(x, c, q, r)
